@@ -223,20 +223,135 @@ func UnfoldUProc(to *UProc) (interface{}, func(*UProc, interface{}) error) {
 	}
 }
 
+// UState is unfolded by a *stateful* user unfolder (func(*T) UnfoldState)
+// that drives the shared state stack itself: the start state is replaced by the
+// object state (Cont), the list member pushes a nested state (Push), both leave
+// with Done. Shape: {"a": <int>, "l": [<int>...]}.
+type UState struct {
+	A int64
+	L []int64
+}
+
+func (u UState) Fold(v structform.ExtVisitor) error {
+	if err := v.OnObjectStart(2, structform.AnyType); err != nil {
+		return err
+	}
+	if err := v.OnKey("a"); err != nil {
+		return err
+	}
+	if err := v.OnInt64(u.A); err != nil {
+		return err
+	}
+	if err := v.OnKey("l"); err != nil {
+		return err
+	}
+	if err := v.OnArrayStart(len(u.L), structform.Int64Type); err != nil {
+		return err
+	}
+	for _, x := range u.L {
+		if err := v.OnInt64(x); err != nil {
+			return err
+		}
+	}
+	if err := v.OnArrayFinished(); err != nil {
+		return err
+	}
+	return v.OnObjectFinished()
+}
+
+// UnfoldUState is the stateful unfolder of UState.
+func UnfoldUState(to *UState) gotype.UnfoldState { return &uStateStart{to: to} }
+
+type uStateStart struct {
+	gotype.BaseUnfoldState
+	to *UState
+}
+
+func (s *uStateStart) OnObjectStart(ctx gotype.UnfoldCtx, _ int, _ structform.BaseType) error {
+	ctx.Cont(&uStateObj{to: s.to})
+	return nil
+}
+
+type uStateObj struct {
+	gotype.BaseUnfoldState
+	to  *UState
+	key string
+}
+
+func (s *uStateObj) OnKey(ctx gotype.UnfoldCtx, key string) error {
+	if key != "a" && key != "l" {
+		return errors.New("UState: unknown key")
+	}
+	s.key = key
+	return nil
+}
+
+func (s *uStateObj) OnInt(ctx gotype.UnfoldCtx, i int64) error {
+	if s.key != "a" {
+		return errors.New("UState: unexpected integer")
+	}
+	s.to.A = i
+	return nil
+}
+
+func (s *uStateObj) OnUint(ctx gotype.UnfoldCtx, u uint64) error {
+	if u > math.MaxInt64 {
+		return errors.New("UState: unsigned value out of range")
+	}
+	return s.OnInt(ctx, int64(u))
+}
+
+func (s *uStateObj) OnArrayStart(ctx gotype.UnfoldCtx, _ int, _ structform.BaseType) error {
+	if s.key != "l" {
+		return errors.New("UState: unexpected array")
+	}
+	s.to.L = []int64{}
+	ctx.Push(&uStateList{to: s.to})
+	return nil
+}
+
+func (s *uStateObj) OnObjectFinished(ctx gotype.UnfoldCtx) error {
+	ctx.Done()
+	return nil
+}
+
+type uStateList struct {
+	gotype.BaseUnfoldState
+	to *UState
+}
+
+func (s *uStateList) OnInt(ctx gotype.UnfoldCtx, i int64) error {
+	s.to.L = append(s.to.L, i)
+	return nil
+}
+
+func (s *uStateList) OnUint(ctx gotype.UnfoldCtx, u uint64) error {
+	if u > math.MaxInt64 {
+		return errors.New("UState: unsigned value out of range")
+	}
+	return s.OnInt(ctx, int64(u))
+}
+
+func (s *uStateList) OnArrayFinished(ctx gotype.UnfoldCtx) error {
+	ctx.Done()
+	return nil
+}
+
 // UnfoldOptions returns the option registering the user unfolders above.
 func UnfoldOptions() gotype.UnfoldOption {
-	return gotype.Unfolders(UnfoldUNum, UnfoldUStr, UnfoldUProc)
+	return gotype.Unfolders(UnfoldUNum, UnfoldUStr, UnfoldUProc, UnfoldUState)
 }
 
 var (
-	uNumType  = reflect.TypeOf(UNum{})
-	uStrType  = reflect.TypeOf(UStr{})
-	uProcType = reflect.TypeOf(UProc{})
+	uNumType   = reflect.TypeOf(UNum{})
+	uStrType   = reflect.TypeOf(UStr{})
+	uProcType  = reflect.TypeOf(UProc{})
+	uStateType = reflect.TypeOf(UState{})
 )
 
 // UsesUserUnfolder reports whether a target of type t needs UnfoldOptions.
 func UsesUserUnfolder(t reflect.Type) bool {
-	return usesAny(t, 0, map[reflect.Type]bool{}, uNumType, uStrType, uProcType)
+	return usesAny(t, 0, map[reflect.Type]bool{}, uNumType, uStrType, uProcType, uStateType)
 }
 
 func usesAny(t reflect.Type, depth int, seen map[reflect.Type]bool, wanted ...reflect.Type) bool {
@@ -267,7 +382,58 @@ func init() {
 		PoolType{Name: "UNum", Type: uNumType, NeedsUnfoldOpts: true},
 		PoolType{Name: "UStr", Type: uStrType, NeedsUnfoldOpts: true},
 		PoolType{Name: "UProc", Type: uProcType, NeedsUnfoldOpts: true},
+		PoolType{Name: "UState", Type: uStateType, NeedsUnfoldOpts: true},
 	)
+	poolFolders[uStateType] = func(rv reflect.Value) model.V {
+		l := model.V{K: model.VArr, A: []model.V{}}
+		for i := 0; i < rv.Field(1).Len(); i++ {
+			l.A = append(l.A, model.Int(rv.Field(1).Index(i).Int()))
+		}
+		return model.Obj(
+			model.Member{Key: []byte("a"), Val: model.Int(rv.Field(0).Int())},
+			model.Member{Key: []byte("l"), Val: l})
+	}
+	poolAssign[uStateType] = func(dst reflect.Value, v model.V) error {
+		if v.K == model.VNull {
+			dst.Set(reflect.Zero(dst.Type()))
+			return nil
+		}
+		if v.K != model.VObj {
+			return errors.New("UState accepts objects only")
+		}
+		intOf := func(x model.V) (int64, error) {
+			if x.K != model.VInt || !x.N.IsInt64() {
+				return 0, errors.New("UState holds integers only")
+			}
+			return x.N.Int64(), nil
+		}
+		for _, m := range v.O {
+			switch string(m.Key) {
+			case "a":
+				i, err := intOf(m.Val)
+				if err != nil {
+					return err
+				}
+				dst.Field(0).SetInt(i)
+			case "l":
+				if m.Val.K != model.VArr {
+					return errors.New("UState.l must be an array")
+				}
+				l := reflect.MakeSlice(dst.Field(1).Type(), 0, len(m.Val.A))
+				for _, e := range m.Val.A {
+					i, err := intOf(e)
+					if err != nil {
+						return err
+					}
+					l = reflect.Append(l, reflect.ValueOf(i))
+				}
+				dst.Field(1).Set(l)
+			default:
+				return errors.New("UState: unknown key")
+			}
+		}
+		return nil
+	}
 	poolFolders[uNumType] = func(rv reflect.Value) model.V { return model.Int(rv.Field(0).Int()) }
 	poolFolders[uStrType] = func(rv reflect.Value) model.V { return model.Str([]byte(rv.Field(0).String())) }
 	poolAssign[uNumType] = func(dst reflect.Value, v model.V) error {
